@@ -55,6 +55,53 @@ func helperClash(src string) string {
 	return ""
 }
 
+const c15PanicTestFile = `package s
+
+import . "github.com/goghcrow/go-co"
+
+func WalkT(n int) Iter[int] {
+	if n == 0 {
+		Yield(0)
+	} else if n > 0 {
+		Yield(n)
+		YieldFrom(WalkT(n - 1))
+	} else {
+		panic("negative")
+	}
+	return nil
+}
+
+func ClassT(n int) Iter[int] {
+	for i := 0; i < n; i++ {
+		switch {
+		case i%2 == 0:
+			Yield(i)
+		default:
+			panic("odd")
+		}
+	}
+	return nil
+}
+`
+
+const c15FibFile = `package s
+
+import . "github.com/goghcrow/go-co"
+
+func Fib(n int) Iter[int] {
+	a, b := 0, 1
+	for i := 0; i < n; i++ {
+		if a > 1000 {
+			Yield(-1)
+		} else {
+			Yield(a)
+		}
+		a, b = b, a+b
+	}
+	return nil
+}
+`
+
 type c15Case struct {
 	Target []*Program   `json:"target"`
 	Others [][]*Program `json:"others"`
@@ -110,6 +157,10 @@ func (rs *runState) runC15Case(idx int, cs c15Case) *violationT {
 			"s/zsub/m_target.go": subpkg(target, "zsub")}},
 		{name: "sub-package-after-a-package-with-nothing-to-optimise", dir: "j", group: "sub", target: "zsub/m_target.go", files: map[string]string{
 			"s/a_first.go": "package s\n\nimport . \"github.com/goghcrow/go-co\"\n\nfunc Tiny() Iter[int] {\n\tYield(1)\n\treturn nil\n}\n", "s/zsub/m_target.go": subpkg(target, "zsub"), "s/zsub/z_other.go": subpkg(others[0], "zsub")}},
+		// a _test.go generator whose last branch panics (the termination check decides whether a trailing Normal is appended),
+		// alone and beside an unrelated non-test generator file that also triggers termination checks
+		{name: "panic-terminated-test-file-alone", dir: "k", group: "ptest", target: "t_test.go", files: map[string]string{"s/t_test.go": c15PanicTestFile, "s/plain.go": "package s\n\nfunc Plain() int { return 1 }\n"}},
+		{name: "panic-terminated-test-file-beside-generator-file", dir: "l", group: "ptest", target: "t_test.go", files: map[string]string{"s/t_test.go": c15PanicTestFile, "s/plain.go": "package s\n\nfunc Plain() int { return 1 }\n", "s/fib.go": c15FibFile}},
 		{name: "gomaxprocs-1", dir: "d", files: map[string]string{"s/m_target.go": target, "s/z_last.go": others[0]}, env: []string{"GOMAXPROCS=1"}},
 		{name: "stale-output-and-rerun", dir: "e", files: map[string]string{"s/m_target.go": target}, runs: 2, pre: func(dir string) {
 			// outputs of an earlier run of a DIFFERENT program are present on disk
@@ -234,7 +285,7 @@ func countStmts(p *Program, kinds ...string) int {
 func init() {
 	checks["C15"] = &checkT{run: func(rs *runState) {
 		rs.rule("a target file (6 programs of the range/delegation/scoping profiles: many sequential and nested range loops and function literals, so unique-name generation and comment attachment are exercised) " +
-			"compiled in production mode in 11 configurations: alone; in a sub-package alone / after a package with two files / after a package with nothing to optimise and beside another file; beside an unrelated in-package _test.go file; beside an external-test-package file and a _test.go file that uses the API; among 2 other files sorting before/after; among other files and 2 sub-packages in a differently named directory; GOMAXPROCS=1; " +
+			"compiled in production mode in 13 configurations: alone; a panic-terminated _test.go generator alone / beside an unrelated generator file; in a sub-package alone / after a package with two files / after a package with nothing to optimise and beside another file; beside an unrelated in-package _test.go file; beside an external-test-package file and a _test.go file that uses the API; among 2 other files sorting before/after; among other files and 2 sub-packages in a differently named directory; GOMAXPROCS=1; " +
 			"with stale o/ and o_tmp/ content of a different program present, twice in a row; oracle: the bytes of the target's generated file are identical in all configurations, no helper identifier " +
 			"is defined twice in one function, the output builds; non-trivial = the target has >= 2 range loops in one program and the other files contain range loops; distinct by hash(target)")
 		n := rs.vol(16, 300)
@@ -287,7 +338,7 @@ func init() {
 				for _, p := range cs.Target {
 					h += progHash(p)
 				}
-				rs.eval(h, ranges >= 2 && otherRanges >= 1, "configurations:11")
+				rs.eval(h, ranges >= 2 && otherRanges >= 1, "configurations:13")
 				if i%7 == 0 {
 					src, _ := renderFile("S", "s", cs.Style, cs.Target[:1], nil)
 					rs.sample(map[string]any{"target_first_program": src, "other_files": len(cs.Others), "max_range_like_loops_in_one_program": ranges})
@@ -352,6 +403,8 @@ func snapshot(dir string) map[string]string {
 const c16KnownWhat = "an external test package (package p_test) whose co test file contains a closure of the eta-reducible form over a function of the package under test " +
 	"(`f := func() int { return pkg.EmbedLen() }`) is not idempotent under cogen: the first run leaves the closure as written (the optimise stage cannot resolve pkg.EmbedLen before the package's own " +
 	"derived files exist), the second run rewrites it to `f := pkg.EmbedLen`, so ext_test.go changes on the second run (rewriter/compile.go GoGen stage 2 loads the temporary directory while the real package is still incomplete)"
+
+var reBlankImport = regexp.MustCompile(`(?m)^\s*(?:import\s+)?_\s+"([^"]+)"`)
 
 const genHeader = "//go:build !co\n\n// Code generated by github.com/goghcrow/go-co DO NOT EDIT.\n"
 
@@ -477,7 +530,7 @@ func (rs *runState) runC16Layout(idx int, lay c16Layout) *violationT {
 	// directive comments on bystander declarations of a processed file (go:embed needs its directive to keep the value;
 	// the file also contains a generator literal, whose attached source comment makes the file carry a comment list)
 	files[pkgDir+"embed_data.txt"] = "embedded payload\n"
-	files[pkgDir+"embed_co.go"] = coHeader("package " + pkgName + "\n\nimport (\n\t_ \"embed\"\n\n\t. \"github.com/goghcrow/go-co\"\n)\n\n//go:embed embed_data.txt\nvar EmbeddedData string\n\n// EmbedGen has a doc comment.\n//\n//go:noinline\nfunc EmbedGen(n int) Iter[string] {\n\tf := func() Iter[string] {\n\t\tYield(EmbeddedData)\n\t\treturn nil\n\t}\n\tfor i := 0; i < n; i++ {\n\t\tYieldFrom(f())\n\t}\n\treturn nil\n}\n")
+	files[pkgDir+"embed_co.go"] = coHeader("package " + pkgName + "\n\nimport (\n\t_ \"crypto/md5\"\n\t_ \"crypto/sha1\"\n\t_ \"embed\"\n\t_ \"image/gif\"\n\n\t. \"github.com/goghcrow/go-co\"\n)\n\n//go:embed embed_data.txt\nvar EmbeddedData string\n\n// EmbedGen has a doc comment.\n//\n//go:noinline\nfunc EmbedGen(n int) Iter[string] {\n\tf := func() Iter[string] {\n\t\tYield(EmbeddedData)\n\t\treturn nil\n\t}\n\tfor i := 0; i < n; i++ {\n\t\tYieldFrom(f())\n\t}\n\treturn nil\n}\n")
 	files[pkgDir+"embed_test.go"] = "package " + pkgName + "\n\nimport \"testing\"\n\nfunc TestEmbeddedData(t *testing.T) {\n\tif EmbeddedData != \"embedded payload\\n\" {\n\t\tt.Fatalf(\"EmbeddedData = %q: the go:embed directive of a bystander declaration was lost\", EmbeddedData)\n\t}\n\tn := 0\n\tfor it := EmbedGen(2); it.MoveNext(); n++ {\n\t\tif it.Current() != EmbeddedData {\n\t\t\tt.Fatalf(\"EmbedGen yielded %q\", it.Current())\n\t\t}\n\t}\n\tif n != 2 {\n\t\tt.Fatalf(\"EmbedGen yielded %d values\", n)\n\t}\n}\n"
 	expected[pkgDir+"embed.go"] = true
 	// an external test package (package <pkg>_test) with a generator of its own and a closure over a function of the
@@ -606,6 +659,23 @@ func (rs *runState) runC16Layout(idx int, lay c16Layout) *violationT {
 		b, _ := os.ReadFile(filepath.Join(root, e))
 		if !strings.HasPrefix(string(b), genHeader) {
 			return mk("header", fmt.Sprintf("%s does not start with the '!co' constraint and the generated-code header: %q", e, firstN(string(b), 120)))
+		}
+	}
+	// side-effect imports of a co file are part of its meaning: each must be present in the derived file
+	for e := range expected {
+		src := strings.TrimSuffix(e, ".go") + "_co.go"
+		if strings.HasSuffix(e, "_test.go") {
+			src = strings.TrimSuffix(e, "_test.go") + "_co_test.go"
+		}
+		sb, err1 := os.ReadFile(filepath.Join(root, src))
+		db, err2 := os.ReadFile(filepath.Join(root, e))
+		if err1 != nil || err2 != nil {
+			continue
+		}
+		for _, m := range reBlankImport.FindAllStringSubmatch(string(sb), -1) {
+			if !strings.Contains(string(db), "_ \""+m[1]+"\"") {
+				return mk("blank-import-lost", fmt.Sprintf("%s imports %q for its side effects, the derived file %s does not", src, m[1], e))
+			}
 		}
 	}
 	if r := runCmd(root, 10*time.Minute, nil, "go", "build", "./..."); r.code != 0 {
